@@ -1732,6 +1732,11 @@ impl<const N: usize> ScenN<N> {
                 }
             }
             for t in toks.iter().skip(1) {
+                if let Some(spec) = t.strip_prefix("bloom=") {
+                    // the next session uses another bloom configuration (e.g. another number of hashers)
+                    let p: Vec<usize> = spec.split(',').filter_map(|x| x.parse().ok()).collect();
+                    self.cfg.bloom = if p.len() == 3 { Some((p[0], p[1], p[2])) } else { None };
+                }
                 if let Some(spec) = t.strip_prefix("bdmg=") {
                     for one in spec.split(',') {
                         self.damage_blob(one);
@@ -2062,14 +2067,30 @@ impl<const N: usize> ScenN<N> {
                     Some("never") => st.force_update_active_blob(|_| false).await,
                     Some("nonempty") => st.force_update_active_blob(|s| s.map_or(false, |s| s.records_count > 0)).await,
                     Some("ge3") => st.force_update_active_blob(|s| s.map_or(false, |s| s.records_count >= 3)).await,
+                    // predicates that keep the worker busy for a while and then refuse the update (a `fn` pointer cannot
+                    // capture the duration)
+                    Some("slow:900") => st.force_update_active_blob(|_| { std::thread::sleep(Duration::from_millis(900)); false }).await,
+                    Some("slow:1300") => st.force_update_active_blob(|_| { std::thread::sleep(Duration::from_millis(1300)); false }).await,
                     _ => return "bad-op".into(),
                 };
-                Self::drain(st).await;
+                if !toks.contains(&"@nodrain") {
+                    Self::drain(st).await;
+                }
+                "ok".into()
+            }
+            "flood" => {
+                // flood <n>: n dump requests sent back to back (they are no-ops for the data), no waiting for the worker
+                let n: usize = toks.get(1).and_then(|x| x.parse().ok()).unwrap_or(1024);
+                for _ in 0..n {
+                    let _ = tokio::time::timeout(Duration::from_secs(30), st.free_excess_resources()).await;
+                }
                 "ok".into()
             }
             "free" => {
                 let _ = st.free_excess_resources().await;
-                Self::drain(st).await;
+                if !toks.contains(&"@nodrain") {
+                    Self::drain(st).await;
+                }
                 "ok".into()
             }
             "offload" => {
